@@ -6,6 +6,7 @@ CONSTANTS
   MaxTape = 60
   Chunks = {"c1", "c2", "c3"}
   AttrVals = {1, 2}
+  RestartKinds = {0, 1}
   Handles = {}
   HandleFlags = {}
   MaxContent = 2
